@@ -165,6 +165,15 @@ def to_number(token: str) -> typing.Union[int, float]:
 
 
 def generate(arg_list: typing.Sequence[str]) -> typing.Dict[str, typing.Any]:
+    # For argparse, "--name=value" is the same as "--name value".
+    split_arg_list: typing.List[str] = []
+    for arg in arg_list:
+        if arg.startswith("--") and "=" in arg:
+            split_arg_list.extend(arg.split("=", 1))
+        else:
+            split_arg_list.append(arg)
+    arg_list = split_arg_list
+
     data: typing.Dict[str, typing.Any] = {}
     max_idx = len(arg_list) - 1
     for i, arg in enumerate(arg_list):
